@@ -37,8 +37,8 @@ CLAIMED = {
    "DESIGN.md §6 C01",
    "Reference denotation = transcription of derive/src/lib.rs prose + DESIGN §10 decisions; differential comparison as strong as the grammar/input generator; lister finding classified with hook H2.",
    "Lean 4 reference denotation as oracle + exhaustive-per-grammar differential against optimize+Vm::parse (default and grammar-extras)"),
- "C05": ("other",
-   "Lean transcriptions of all seven passes and of optimize() whose outputs are compared AS TREES with the real passes (hook H2) on every run — the tightest tie a pure function admits — in two builds (default, grammar-extras); meaning preservation is stated against the reference denotation (rotate/unroll/concat/factor/skip_preserves, rules_congruence, pipeline_preserves_without_list, list_not_preserving) and is being proved; until then the check searches: the denotations of a grammar and of its image under each pass are compared on all inputs up to a length bound. The lister rewrite is a recorded known finding.",
+ "C05": ("proof",
+   "Lean transcriptions of all seven passes and of optimize() whose outputs are compared AS TREES with the real passes (hook H2) on every run — the tightest tie a pure function admits — in two builds (default, grammar-extras); meaning preservation is kernel-checked against the reference denotation for every grammar, input, mode and stack: rotate_preserves, unroll_preserves, concat_preserves, factor_preserves, skip_preserves (at boundary positions; the unrestricted form is refuted), rules_congruence, and pipeline_preserves_without_list (the whole pipeline minus `list`, as an iff on definite results incl. pairs), plus list_not_preserving (the lister rewrite is NOT meaning-preserving: recorded known finding) and denote_fuel_mono / evals_det; the check additionally searches inputs up to a length bound per pass.",
    "DESIGN.md §6 C05",
    "Lean kernel for the proved part; syntactic equality of pass outputs on generated rule sets; reference denotation as the meaning; hook H2.",
    "Lean 4 transcription of the passes validated by tree equality with the real passes + meaning-preservation theorems/search on the reference denotation"),
